@@ -104,7 +104,8 @@ def main(argv=None):
         if counters.get("case_timeouts", 0) > plan.get("max_case_timeouts", 0):
             inconclusive.append(f"{counters['case_timeouts']} cases hit the per-case watchdog")
 
-    replay_dir = core.VERIF / "replays" / prop
+    no_evidence = bool(os.environ.get("GEV_NO_EVIDENCE"))  # self-test runs against scratch mutants: leave evidence/ alone
+    replay_dir = (core.VERIF / "replays" / prop) if not no_evidence else (core.VERIF / "replays" / "_selftest" / prop)
     lines = []
     for hk in known_hits.values():
         lines.append(f"KNOWN-FINDING: property={prop} {hk['finding']['what']} [mechanism={hk['finding']['mechanism']} observed={hk['count']}]")
@@ -127,7 +128,7 @@ def main(argv=None):
             lines.append(f"INCONCLUSIVE property={prop} reason={r}")
 
     wall = time.monotonic() - t0
-    if not args.replay:
+    if not args.replay and not no_evidence:
         evaluations = int(counters.get("evaluations", counters.get("cases", 0)))
         coverage = {
             "evaluations": evaluations,
